@@ -685,4 +685,57 @@ theorem parseText_marshal (L : OttoVerif.C06.Lib) (gap : Str) (hgap : gap.all is
   simp only [List.nil_append, List.append_nil] at h1
   simp [parseText, h1, skipWS]
 
+/-! ### the reviver walk -/
+
+
+mutual
+/-- no object has two or more properties -/
+def smallObj : RV → Bool
+  | .arr l => smallObjL l
+  | .obj .nil => true
+  | .obj (.cons _ v .nil) => smallObj v
+  | .obj (.cons _ _ (.cons _ _ _)) => false
+  | _ => true
+def smallObjL : RVs → Bool
+  | .nil => true
+  | .cons v t => smallObj v && smallObjL t
+end
+
+mutual
+theorem reviveM_eq (f : Reviver) : ∀ fuel name v, smallObj v = true → reviveM f fuel name v = Spec.revive f fuel name v
+  | 0, _, _, _ => by simp [reviveM, Spec.revive]
+  | fuel + 1, name, .arr l, h => by
+    simp only [smallObj] at h
+    simp [reviveM, Spec.revive, reviveArrM_eq f fuel 0 l h]
+  | fuel + 1, name, .obj .nil, _ => by
+    cases fuel <;> simp [reviveM, Spec.revive, RMs'.keys, reviveObjM, Spec.reviveObj]
+  | fuel + 1, name, .obj (.cons k v .nil), h => by
+    simp only [smallObj] at h
+    cases fuel with
+    | zero => simp [reviveM, Spec.revive, RMs'.keys, reviveObjM, Spec.reviveObj]
+    | succ f' =>
+      have ih := reviveM_eq f f' k v h
+      simp only [reviveM, Spec.revive, RMs'.keys, List.length_cons, List.length_nil, reviveObjM, Spec.reviveObj,
+        List.getElem?_cons_zero, RMs'.get, if_true, ih]
+      cases hr : (Spec.revive f f' k v).1 with
+      | none =>
+        cases f' <;> simp [orderDelete, reviveObjM, RMs'.del, Spec.reviveObj]
+      | some x =>
+        cases f' <;> simp [reviveObjM, RMs'.set, Spec.reviveObj]
+  | fuel + 1, name, .obj (.cons _ _ (.cons _ _ _)), h => by simp [smallObj] at h
+  | fuel + 1, name, .undef, _ => by simp [reviveM, Spec.revive]
+  | fuel + 1, name, .null, _ => by simp [reviveM, Spec.revive]
+  | fuel + 1, name, .bool _, _ => by simp [reviveM, Spec.revive]
+  | fuel + 1, name, .num _, _ => by simp [reviveM, Spec.revive]
+  | fuel + 1, name, .str _, _ => by simp [reviveM, Spec.revive]
+theorem reviveArrM_eq (f : Reviver) : ∀ fuel i l, smallObjL l = true → reviveArrM f fuel i l = Spec.reviveArr f fuel i l
+  | 0, _, _, _ => by simp [reviveArrM, Spec.reviveArr]
+  | _ + 1, _, .nil, _ => by simp [reviveArrM, Spec.reviveArr]
+  | fuel + 1, i, .cons v t, h => by
+    simp only [smallObjL, Bool.and_eq_true] at h
+    simp only [reviveArrM, Spec.reviveArr, reviveM_eq f fuel (decimalNat i) v h.1, reviveArrM_eq f fuel (i + 1) t h.2]
+    cases (Spec.revive f fuel (decimalNat i) v).fst <;> rfl
+end
+
+
 end OttoVerif.C11.Lem
